@@ -292,7 +292,11 @@ def run_property(prop_factory, tier, seed, replay=None):
                 c = json.load(open(os.path.join(rdir, f)))
                 cs.append(c.get("case", c))
         replayed = len(cs)
-        failures += _eval_cases(prop, cs, stats, sample_every=0)
+        ext = [c for c in cs if c.get("_external") and hasattr(prop, "replay_external")]
+        for c in ext:
+            stats.evaluations += 1
+            failures += prop.replay_external(c)
+        failures += _eval_cases(prop, [c for c in cs if c not in ext], stats, sample_every=0)
     info["replayed"] = replayed
 
     nworkers = prop.workers
